@@ -43,6 +43,11 @@ class Sched(object):
 
     def _serve(self):
         self.ident[1] = threading.get_ident()
+        try:
+            import numpy
+            numpy.seterr(all="ignore")      # numpy's floating-point error state is per thread
+        except Exception:
+            pass
         self.ready.put(1)
         while True:
             msg = self.inbox[1].get()
